@@ -384,7 +384,7 @@ func endlessScript(rt *rapid.T, fault string) (string, string) {
 		// single operations that are instantaneous however large their operands look
 		op := rapid.SampledFrom([]string{"x = 1 ** 4000000000000000000;", "x = 0 ** 9223372036854775807;", "x = (0 - 1) ** 9223372036854775806;", "x = 2 ** 62;", "x = 1.0 ** 1000000000000.0;",
 			"x = 9223372036854775807 % 3;", "x = 9223372036854775807 / 2;", "x = (0 - 9223372036854775807) * 3;", "x = \"a\" in \"abcabc\";", "x = len(\"狐犬\");", "x = [1, 2, 3][2];",
-			"x = hour(1700000000);", "x = weekday(N) + string(year(0));", "x = now() - minute(0);", "x = 2 ** Min;", "x = 1 ** Min;", "x = (0 - 1) ** Min;", "x = 3 ** Max;", "x = Min % 7;", "x = Min / 3;", "x = Max * Max;", "x = Min - 1;", "x = 2.0 ** Min;", "x = Min ** 2;"}).Draw(rt, "cheapop")
+			"x = split(\"abc\", \"\");", "x = split(\"\", \"\");", "x = replace(\"abc\", \"\", \"-\");", "x = join([1, 2], \"\");", "x = hour(1700000000);", "x = weekday(N) + string(year(0));", "x = now() - minute(0);", "x = 2 ** Min;", "x = 1 ** Min;", "x = (0 - 1) ** Min;", "x = 3 ** Max;", "x = Min % 7;", "x = Min / 3;", "x = Max * Max;", "x = Min - 1;", "x = 2.0 ** Min;", "x = Min ** 2;"}).Draw(rt, "cheapop")
 		return pre + "while (true) { " + op + " }", shape
 	case "doubling":
 		// values that mention themselves twice: cheap (the members are shared)
